@@ -41,10 +41,13 @@ Fixpoint add_rels (src : resource) (s : soft) (rels : list (str * rel)) : res so
   | [] => Ok s
   | (_, x) :: rest =>
       bind (res_get src (from_name x)) (fun v =>
+        (* only a well-typed value is stored (checked type assertion) *)
         match v with
-        | VStr _ => if to_one x then add_rels src (soft_set (soft_add_rel s x) (from_name x) v) rest else Panic
-        | VStrs _ _ => if to_one x then Panic else add_rels src (soft_set (soft_add_rel s x) (from_name x) v) rest
-        | _ => Panic
+        | VStr _ => if to_one x then add_rels src (soft_set (soft_add_rel s x) (from_name x) v) rest
+                    else add_rels src (soft_add_rel s x) rest
+        | VStrs _ _ => if to_one x then add_rels src (soft_add_rel s x) rest
+                       else add_rels src (soft_set (soft_add_rel s x) (from_name x) v) rest
+        | _ => add_rels src (soft_add_rel s x) rest
         end)
   end.
 
@@ -86,6 +89,7 @@ Definition sc_normalise (c : scoll) : scoll :=
 
 Inductive cop : Type :=
 | CAdd (src : res resource) (ops : list (str * value))
+| CAddOwn (ops : list (str * value))     (* a soft resource made from the collection's own type value *)
 | CRemove (id : str)
 | CSetType (t : type)
 | CAddAttr (a : attr)
